@@ -69,66 +69,74 @@ theorem C01_initial_records (opts : List (ResOpt M K)) :
   · have := applyAllRes_records opts {} rc h
     simpa using this
 
-/-- A fresh Collection holds exactly the initial records it was given, under the ids as given (the id
-interceptor is not applied to them), stamped with the construction time: `Get id` under any read options
-returns the projection of the record given for `icpt id`, and nothing for an id no record was given for. -/
-theorem C01_new_collection_contents (base : Cfg M K R) (opts : List (ResOpt M K)) (rng : R)
-    (cfg : Cfg M K R) (s : CState M R) (h : Coll.newO base opts rng = some (cfg, s)) :
-    (∀ id v, (id, v) ∈ recordsOf opts → lookup s.items id = some { body := v, time := 0 }) ∧
-    (∀ id, id ∉ idsOf (recordsOf opts) → lookup s.items id = none) ∧
-    (∀ id v ro, (icptId cfg id, v) ∈ recordsOf opts → Coll.get cfg s id ro = some (cfg.ops.filter ro.readMask v)) ∧
-    (∀ id ro, icptId cfg id ∉ idsOf (recordsOf opts) → Coll.get cfg s id ro = none) := by
-  unfold Coll.newO at h
-  cases hc : computeConfig opts with
-  | none => simp [hc] at h
-  | some rc =>
-    simp only [hc, Option.map_some, Option.some.injEq, Prod.mk.injEq] at h
-    obtain ⟨hcfg, hs⟩ := h
+/-- A fresh Collection is a map of its initial records keyed like every later call keys it (fix 215ba16):
+each record is kept under the id interceptor's image of the id it was given with, stamped with the
+construction time, and nothing else is there — so `Get id` (any read options) returns the projection of
+the record given as `id`, whatever the interceptor; and construction panics exactly when the option list
+does (an id given twice) or two records get the same key. -/
+theorem C01_new_collection_contents (base : Cfg M K R) (opts : List (ResOpt M K)) (rng : R) :
+    (∀ rc, computeConfig opts = some rc →
+      ((Coll.newO base opts rng).isSome = true ↔
+        ((idsOf (recordsOf opts)).map (icptId (toCfg base rc))).Pairwise (· ≠ ·))) ∧
+    ∀ cfg s, Coll.newO base opts rng = some (cfg, s) →
+      (∀ id v, (id, v) ∈ recordsOf opts → lookup s.items (icptId cfg id) = some { body := v, time := 0 }) ∧
+      (∀ k, (∀ id ∈ idsOf (recordsOf opts), icptId cfg id ≠ k) → lookup s.items k = none) ∧
+      (∀ id v ro, (id, v) ∈ recordsOf opts → Coll.get cfg s id ro = some (cfg.ops.filter ro.readMask v)) := by
+  have hids : ∀ (cfg : Cfg M K R) (l : List (String × M)),
+      idsOf (keyedRecords cfg l) = (idsOf l).map (icptId cfg) := by
+    intro cfg l; simp [idsOf, keyedRecords, List.map_map, Function.comp_def]
+  constructor
+  · intro rc hc
     have hrec := (C01_initial_records opts).2 rc hc
-    have hnd : (idsOf (recordsOf opts)).Pairwise (· ≠ ·) := (C01_initial_records opts).1.mp (by simp [hc])
-    have hl : ∀ k, lookup s.items k =
-        ((recordsOf opts).reverse.find? (fun kv => kv.1 == k)).map (fun kv => { body := kv.2, time := 0 }) := by
-      intro k; rw [← hs, lookup_init, hrec]
-    have h1 : ∀ id v, (id, v) ∈ recordsOf opts → lookup s.items id = some { body := v, time := 0 } := by
+    unfold Coll.newO
+    simp only [hc, Option.bind_some, hrec]
+    cases hd : hasDupKey (keyedRecords (toCfg base rc) (recordsOf opts)) with
+    | true =>
+      simp only [↓reduceIte, Option.isSome_none, Bool.false_eq_true, false_iff]
+      intro hp
+      have := (hasDupKey_false _).mpr (by rw [hids]; exact hp)
+      rw [hd] at this; cases this
+    | false =>
+      simp only [Bool.false_eq_true, ↓reduceIte, Option.isSome_some, true_iff]
+      have := (hasDupKey_false _).mp hd
+      rwa [hids] at this
+  · intro cfg s h
+    obtain ⟨rc, _, _, hd, hs⟩ := newO_cases base opts rng cfg s h
+    have hnd := (hasDupKey_false _).mp hd
+    have hl := lookup_init_distinct cfg (keyedRecords cfg (recordsOf opts)) rng hnd
+    rw [← hs] at hl
+    have h1 : ∀ id v, (id, v) ∈ recordsOf opts → lookup s.items (icptId cfg id) = some { body := v, time := 0 } := by
       intro id v hm
-      rw [hl]
-      cases hf : (recordsOf opts).reverse.find? (fun kv => kv.1 == id) with
-      | none =>
-        have := List.find?_eq_none.mp hf (id, v) (List.mem_reverse.mpr hm)
-        simp at this
-      | some kv =>
-        have hk : kv.1 = id := by have := List.find?_some hf; simpa using this
-        have hm' : kv ∈ recordsOf opts := List.mem_reverse.mp (List.mem_of_find?_eq_some hf)
-        obtain ⟨k, w⟩ := kv
-        simp only at hk; subst hk
-        have := unique_of_pairwise _ hnd k w v hm' hm
-        subst this; rfl
-    have h2 : ∀ id, id ∉ idsOf (recordsOf opts) → lookup s.items id = none := by
-      intro id hn
-      rw [hl]
-      cases hf : (recordsOf opts).reverse.find? (fun kv => kv.1 == id) with
-      | none => rfl
-      | some kv =>
-        exfalso; apply hn
-        have hk : kv.1 = id := by have := List.find?_some hf; simpa using this
-        exact List.mem_map.mpr ⟨kv, List.mem_reverse.mp (List.mem_of_find?_eq_some hf), hk⟩
-    refine ⟨h1, h2, fun id v ro hm => ?_, fun id ro hn => ?_⟩
+      apply hl.1
+      exact List.mem_map.mpr ⟨(id, v), hm, rfl⟩
+    refine ⟨h1, fun k hk => ?_, fun id v ro hm => ?_⟩
+    · apply hl.2
+      rw [hids]
+      intro hmem
+      obtain ⟨id, hid, he⟩ := List.mem_map.mp hmem
+      exact hk id hid he
     · unfold Coll.get; rw [h1 _ _ hm]; rfl
-    · unfold Coll.get; rw [h2 _ hn]; rfl
 
 /-- A Collection constructed from ANY option list (that does not panic) is the reference map started
 from the records given: every call sequence on it is a run of the reference. -/
 theorem C01_collection_refines_res (base : Cfg M K R) (hb : EqRefl base.ops) (opts : List (ResOpt M K)) (rng : R)
     (cfg : Cfg M K R) (s : CState M R) (h : Coll.newO base opts rng = some (cfg, s)) (ops : List (COp M K)) :
     Spec.Run cfg (abs s) ops (Coll.run cfg s ops).1 (abs (Coll.run cfg s ops).2) := by
-  unfold Coll.newO at h
-  cases hc : computeConfig opts with
-  | none => simp [hc] at h
-  | some rc =>
-    simp only [hc, Option.map_some, Option.some.injEq, Prod.mk.injEq] at h
-    obtain ⟨hcfg, hs⟩ := h
-    subst hcfg; subst hs
-    exact run_refines (toCfg base rc) hb ops _ (nodupKeys_init _ _ rng)
+  obtain ⟨rc, _, hcfg, _, hs⟩ := newO_cases base opts rng cfg s h
+  subst hs
+  have hb' : EqRefl cfg.ops := by rw [hcfg]; exact hb
+  exact run_refines cfg hb' ops _ (nodupKeys_init _ _ rng)
+
+/-- What the fix repaired (the constructor as it was before 215ba16, `Coll.newOLegacy`): an initial record
+"A" of a collection with the lower-casing interceptor was kept under "A": List showed it, Get of either
+spelling missed it, and Add "A" created a second item instead of failing with AlreadyExists. -/
+theorem C01_initial_records_legacy_unreachable :
+    ((Coll.newOLegacy (R := List Nat) { ops := flatOps, gen := flatGen }
+        [.icpt (some lowerStr), .initialRecord "A" Flat.zero] []).map
+      (fun p => (Coll.list p.1 p.2 {}, Coll.get p.1 p.2 "A" {}, Coll.get p.1 p.2 "a" {},
+        (Coll.add p.1 p.2 "A" { a := 1, s := "", c := none } {}).1.err,
+        Coll.list p.1 (Coll.add p.1 p.2 "A" { a := 1, s := "", c := none } {}).2 {}))) =
+    some ([Flat.zero], none, none, none, [Flat.zero, { a := 1, s := "", c := none }]) := by decide
 
 /-- A fresh Value holds the LAST initial value given (none: nothing), and Get returns its projection. -/
 theorem C01_new_value_contents (base : Cfg M K R) (pre post : List (ResOpt M K)) (v : Option M)
@@ -199,11 +207,16 @@ example :
       [.initialRecord "a" Flat.zero, .writable none, .initialRecord "b" Flat.zero, .initialRecord "a" Flat.zero]).isSome
       = false := by decide
 
-/-- an initial record under an id the interceptor never produces is stored as given and unreachable by Get -/
+/-- the same construction now: the record is reachable under either spelling and Add "A" is rejected;
+two records whose ids the interceptor maps to one key panic -/
 example :
     ((Coll.newO (R := List Nat) { ops := flatOps, gen := flatGen }
         [.icpt (some lowerStr), .initialRecord "A" Flat.zero] []).map
-      (fun p => (Coll.get p.1 p.2 "A" {}, Coll.get p.1 p.2 "a" {}, Coll.list p.1 p.2 {}))) =
-    some (none, none, [Flat.zero]) := by decide
+      (fun p => (Coll.get p.1 p.2 "A" {}, Coll.get p.1 p.2 "a" {}, Coll.list p.1 p.2 {},
+        (Coll.add p.1 p.2 "A" { a := 1, s := "", c := none } {}).1.err))) =
+    some (some Flat.zero, some Flat.zero, [Flat.zero], some .alreadyExists) ∧
+    (Coll.newO (R := List Nat) { ops := flatOps, gen := flatGen }
+        [.initialRecord "a" Flat.zero, .icpt (some lowerStr), .initialRecord "A" Flat.zero] []).isSome = false := by
+  decide
 
 end ScVerif.C01
